@@ -58,7 +58,10 @@ Lemma resolve_VTuple : forall s l, resolve s (VTuple l) =
   match rs_list s l with Ok l' => Ok (VTuple l') | Raise e => Raise e end.
 Proof. reflexivity. Qed.
 Lemma resolve_VDict : forall s l, resolve s (VDict l) =
-  match rs_dict s l with Ok l' => Ok (VDict l') | Raise e => Raise e end.
+  match rs_dict s l with
+  | Ok l' => match vdict_build l' with Some d => Ok (VDict d) | None => Raise "TypeError" end
+  | Raise e => Raise e
+  end.
 Proof. reflexivity. Qed.
 Lemma resolve_VRef : forall s sc sel ev, resolve s (VRef sc sel ev) =
   match reg_lookup s sel with
@@ -926,6 +929,32 @@ Proof.
   rewrite (macro_use_eval_exact f s2 _ v Ha (split_slash_nonempty name) Hv H2 B2). split; reflexivity.
 Qed.
 
+(* ================================================================== *)
+(* a dict literal is built by dict(...) when the statement is PARSED   *)
+(* ================================================================== *)
+(* general: what a dict value resolves to *)
+Lemma resolve_dict_is_python_dict : forall s l l', rs_dict s l = Ok l' ->
+  resolve s (VDict l) = match vdict_build l' with Some d => Ok (VDict d) | None => Raise "TypeError" end.
+Proof. intros s l l' H. rewrite resolve_VDict, H. reflexivity. Qed.
+(* m.f.b = {%hk: 'a', 1: 'x', %hk: 'b', True: 'y', @g(): %undefined, @g(): 3, @s1/g(): 4}: the same macro / reference
+   written twice and 1 / True are ONE item each (the earlier key and place, the later value; the value under the dropped
+   key is gone: finalize has no unbound macro to complain about); a key that cannot be hashed: TypeError, nothing bound *)
+Lemma parse_time_dict_example :
+  let sg := {| s_args := ["b"]; s_defaults := []; s_varargs := false; s_kwonly := []; s_varkw := false |} in
+  let pf := {| c_sel := "m.f"; c_kind := KProbe; c_sig := sg; c_allow := []; c_deny := []; c_method := false |} in
+  let pg := {| c_sel := "n.g"; c_kind := KProbe; c_sig := sg; c_allow := []; c_deny := []; c_method := false |} in
+  let s := run_top 50 (setup [pf; pg])
+     [OParse "hk" (VInt 5);
+      OParse "f.b" (VDict [(VMacro "hk", VStr "a"); (VInt 1, VStr "x"); (VMacro "hk", VStr "b"); (VBool true, VStr "y");
+                           (VRef [] "g" true, VMacro "undefined"); (VRef [] "n.g" true, VInt 3); (VRef ["s1"] "g" true, VInt 4)])] in
+  let s' := run_top 50 s [OParse "f.b" (VDict [(VInt 1, VInt 2); (VList [VInt 1], VMacro "undefined")])] in
+  cget ("", "m.f") (config s) =
+    Some [("b", VDict [(VRef ["hk"] "gin.macro" true, VStr "b"); (VInt 1, VStr "y");
+                       (VRef [] "n.g" true, VInt 3); (VRef ["s1"] "n.g" true, VInt 4)])] /\
+  macros_hook_ok s = true /\
+  config s' = config s /\ hd ONone (obs s') = OErr "TypeError".
+Proof. vm_compute. repeat split; reflexivity. Qed.
+
 Print Assumptions C05_use_is_reference.
 Print Assumptions C05_resolve_ignores_store.
 Print Assumptions C05_constant_unique.
@@ -957,3 +986,5 @@ Print Assumptions C07_call_records_section_gen.
 Print Assumptions C07_sections_only_grow.
 Print Assumptions C07_non_call_ops_keep_operative.
 Print Assumptions C07_never_called_empty_init.
+Print Assumptions resolve_dict_is_python_dict.
+Print Assumptions parse_time_dict_example.
